@@ -51,6 +51,12 @@ def build_sm(spec, bins=None):
         from cogent3.evolve import substitution_model as st
         from cogent3.evolve.predicate import MotifChange
 
+        if spec["cls"] == "GeneralStationary":
+            from cogent3 import DNA
+
+            sm = ns.GeneralStationary(DNA.alphabet, **kw)
+            _SM_CACHE[key] = sm
+            return sm
         cls = getattr(st, spec["cls"], None) or getattr(ns, spec["cls"])
         preds = []
         for p in spec["preds"]:
@@ -60,6 +66,8 @@ def build_sm(spec, bins=None):
                 preds.append(MotifChange(p[0], p[1], forward_only=bool(p[2])))
         if spec.get("mprob_model"):
             kw["mprob_model"] = spec["mprob_model"]
+        if spec.get("motifs"):
+            kw["motifs"] = list(spec["motifs"])
         sm = cls(predicates=preds, model_gaps=False, recode_gaps=True, **kw)
     _SM_CACHE[key] = sm
     return sm
@@ -126,6 +134,15 @@ def backends(Q, t, pi, reversible):
 
 
 def run_lf(case):
+    from cogent3.maths.optimisers import ParameterOutOfBoundsError
+
+    try:
+        return _run_lf(case)
+    except ParameterOutOfBoundsError:
+        return {"skipped": "ParameterOutOfBoundsError"}
+
+
+def _run_lf(case):
     import numpy
 
     from cogent3 import make_aligned_seqs, make_tree
@@ -136,12 +153,16 @@ def run_lf(case):
     t1, t2 = case["t1"], case["t2"]
     tree = make_tree("(a:0.1,b:0.1,c:0.1,d:0.1)")
     lf = sm.make_likelihood_function(tree, bins=bins["n"]) if bins else sm.make_likelihood_function(tree)
-    seqs = SEQS[st["mlen"]]
-    aln = make_aligned_seqs({n: s for n, s in zip("abcd", seqs)}, moltype="dna")
+    W = st["words"]
+    seqs = ["".join(W[(k * 3 + i * (k + 1)) % len(W)] for i in range(4)) for k in range(4)]
+    aln = make_aligned_seqs({n: s for n, s in zip("abcd", seqs)}, moltype="dna" if set("".join(W)) <= set("ACGT") else "protein")
     lf.set_alignment(aln)
     names = list(lf.get_param_names())
     out = {"structure": st, "param_names": names}
-    if case.get("mprobs") is not None and "mprobs" in names:
+    if case.get("mprobs") is not None and "psmprobs" in names:
+        for pos, v in enumerate(case["mprobs"]):
+            lf.set_param_rule("psmprobs", position=str(pos), value=numpy.array(v, float))
+    elif case.get("mprobs") is not None and "mprobs" in names:
         mp = lf.get_motif_probs()
         keys = list(mp.keys())
         lf.set_motif_probs(dict(zip(keys, case["mprobs"])))
@@ -158,9 +179,14 @@ def run_lf(case):
             lf.set_param_rule("bprobs", value=numpy.array(bins["bprobs"], float))
     if case.get("expm"):
         lf.set_expm(case["expm"])
-    mp = lf.get_motif_probs()
-    out["mprobs_keys"] = [str(k) for k in mp.keys()]
-    out["mprobs"] = [float(x) for x in numpy.asarray(mp.array if hasattr(mp, "array") else list(mp.values()), float).ravel()]
+    if "psmprobs" in names:
+        arr = numpy.asarray(lf.get_param_value("mprobs"), float)   # [position, monomer]
+        out["mprobs_keys"] = st["monomers"]
+        out["mprobs"] = [[float(x) for x in row] for row in arr]
+    else:
+        mp = lf.get_motif_probs()
+        out["mprobs_keys"] = [str(k) for k in mp.keys()]
+        out["mprobs"] = [float(x) for x in numpy.asarray(mp.array if hasattr(mp, "array") else list(mp.values()), float).ravel()]
     out["params"] = {p: float(lf.get_param_value(p)) for p in st["param_order"]}
     pname = "wprobs" if "wprobs" in lf.defn_for else "mprobs"
     pi = numpy.asarray(lf.get_param_value(pname), float).ravel()
@@ -183,7 +209,9 @@ def run_lf(case):
     # the same quantities straight from the model object (no calculator in between)
     try:
         mpm_in = numpy.asarray(out["mprobs"], float)
-        wp = sm.mprob_model.calc_word_probs(mpm_in) if hasattr(sm.mprob_model, "calc_word_probs") and st["mprob_class"] == "MonomerProbModel" else mpm_in
+        if st["mprob_class"] == "PosnSpecificMonomerProbModel":
+            mpm_in = [numpy.asarray(row, float) for row in out["mprobs"]]
+        wp = sm.mprob_model.calc_word_probs(mpm_in) if st["mprob_class"] in ("MonomerProbModel", "PosnSpecificMonomerProbModel") else mpm_in
         if st["mprob_class"] == "SimpleMotifProbModel":
             mpmat = wp
         else:
